@@ -316,6 +316,8 @@ func (w *fingerprintWriter) writeValue(v ast.Value) {
 		w.writeString(n.Value)
 	case *ast.StringValue:
 		w.writeByte('s')
+		w.writeString(strconv.Itoa(len(n.Value)))
+		w.writeByte(':')
 		w.writeString(n.Value)
 	case *ast.BooleanValue:
 		w.writeByte('b')
